@@ -115,8 +115,8 @@ def _task(task):
             shown = [int(x) for x in re.findall(r"'PKT_APID':\s*(\d+)", out)]
             if code != 0 or exc:
                 t.violation({"kind": "cli-crash", "cmd": "parse-all", "exit": str(code), "exc": exc}, {"cmd": "parse", "n": n}, observed=out[-400:])
-            elif shown != [100 + i for i in range(n)]:
-                t.violation({"kind": "parse-all-wrong"}, {"cmd": "parse", "n": n}, expected=[100 + i for i in range(n)], observed=shown[:20])
+            elif shown != [100 + i for i in range(min(n, 20))]:  # --max-items defaults to 20: longer lists are elided by design
+                t.violation({"kind": "parse-all-wrong"}, {"cmd": "parse", "n": n}, expected=[100 + i for i in range(min(n, 20))], observed=shown[:24])
             os.unlink(path)
     os.unlink(xtce)
     t.sample({"n": task["ns"][0], "commands": ["describe-packets", "parse --packet 0..n+1", "parse"], "truncated_tails": [None, 3, 7]})
